@@ -235,3 +235,43 @@ Proof.
   intros -> Hc. unfold in_range. rewrite kle_prefix. cbn [andb]. apply kltb_spec, klt_app_l.
   unfold maxrune. apply klt_cons. left. exact Hc.
 Qed.
+
+(* ---- page sizes beyond the ledger ------------------------------------------------------------ *)
+Section clamp.
+  Context {V : Type}.
+  Notation kv := (list N * V)%type.
+
+  (* a page size beyond the number of ledger entries behaves like the number of entries plus one *)
+  Definition clamp (l : list kv) (size : Z) : Z := Z.min size (Z.of_nat (length l) + 1).
+
+  Lemma filter_len (f : kv -> bool) (l : list kv) : (length (List.filter f l) <= length l)%nat.
+  Proof. induction l as [|x r IHl]; cbn [List.filter length]; [lia|]. destruct (f x); cbn [length]; lia. Qed.
+
+  Lemma page_big (l : list kv) lo hi n m bm : (length l <= n)%nat -> (length l <= m)%nat ->
+    page l lo hi n bm = page l lo hi m bm.
+  Proof.
+    intros Hn Hm. unfold page.
+    set (items := List.filter _ l).
+    assert (Hl : (length items <= length l)%nat) by apply filter_len.
+    rewrite !firstn_all2 by lia. rewrite !skipn_all2 by lia. reflexivity.
+  Qed.
+
+  Lemma query_clamp (l : list kv) size bm : query l size bm = query l (clamp l size) bm.
+  Proof.
+    unfold clamp. destruct (Z.le_gt_cases size (Z.of_nat (length l) + 1)) as [Hle|Hgt].
+    - rewrite Z.min_l by lia. reflexivity.
+    - rewrite Z.min_r by lia. unfold query.
+      destruct (Z.leb_spec size 0); [lia|]. destruct (Z.leb_spec (Z.of_nat (length l) + 1) 0); [lia|].
+      assert (Hp : forall b, page l pfx (pfx ++ maxrune) (Z.to_nat size) b =
+                             page l pfx (pfx ++ maxrune) (Z.to_nat (Z.of_nat (length l) + 1)) b).
+      { intros b. apply page_big; lia. }
+      destruct bm as [|c r]; [rewrite Hp; reflexivity|]. destruct (has_prefix pfx (c :: r)); [rewrite Hp|]; reflexivity.
+  Qed.
+
+  Lemma all_pages_clamp fuel : forall (l : list kv) size bm, all_pages fuel l size bm = all_pages fuel l (clamp l size) bm.
+  Proof.
+    induction fuel as [|f IH]; intros l size bm; cbn [all_pages]; [reflexivity|].
+    rewrite <- query_clamp. destruct (query l size bm) as [e|[items next]]; [reflexivity|].
+    destruct next as [|c r]; [reflexivity|]. rewrite IH. reflexivity.
+  Qed.
+End clamp.
